@@ -45,7 +45,7 @@ def cf_bits(cfs):
     return out
 
 
-def make_cats(ctx, seed, npatch, with_z_unk=False, suffix=""):
+def make_cats(ctx, seed, npatch, with_z_unk=False, suffix="", generic=False):
     import random
     rng = random.Random(seed)     # the same seed gives the same data (in other cache directories with a suffix)
     cents = [offset(80.0, 15.0, k * 1.0, (k % 2) * 0.4) for k in range(npatch)]
@@ -53,7 +53,9 @@ def make_cats(ctx, seed, npatch, with_z_unk=False, suffix=""):
 
     def mk(name, n, with_z):
         pts = [p for k in range(npatch) for p in cluster(rng, cents[k][0], cents[k][1], max(2, n // npatch), 0.45)]
-        cols = {"ra": [p[0] for p in pts], "dec": [p[1] for p in pts], "w": [rng.randrange(1, 9) / 2.0 for _ in pts]}
+        # generic: weights whose float64 sums round (the order of additions then shows in the last bits)
+        cols = {"ra": [p[0] for p in pts], "dec": [p[1] for p in pts],
+                "w": [rng.uniform(0.05, 3.0) if generic else rng.randrange(1, 9) / 2.0 for _ in pts]}
         kw = dict(ra_name="ra", dec_name="dec", weight_name="w", patch_centers=centers, max_workers=1)
         if with_z:
             cols["z"] = [rng.choice([0.15, 0.25, 0.3, 0.45, 0.6]) for _ in pts]
@@ -104,6 +106,54 @@ def orders(rng, ntasks, limit):
             p = list(range(ntasks)); rng.shuffle(p); perms.append(tuple(p))
     rng.shuffle(perms)
     return perms[:limit]
+
+
+def run_generic(ctx):
+    """Weights that are not dyadic: float64 additions round, so any accumulation in completion order (instead of
+    a fixed order by patch index) changes the last bits.  Only schedule against schedule is compared here (bit
+    patterns against the sequential run); the exact-arithmetic cases above carry the model correspondence."""
+    import yaw
+    from yaw.redshifts import HistData
+    rng = ctx.rng
+    for rep in range(ctx.n(2, 6)):
+        npatch = rng.choice([4, 5, 6])
+        ref, unk, rand = make_cats(ctx, rng.randrange(10 ** 6), npatch, suffix="_g", generic=True)
+        edges = [0.1, 0.3, 0.5, 0.7]
+        cfg = yaw.Configuration.create(rmin=[1.0, 5.0], rmax=[20.0, 60.0], unit="arcmin", edges=edges, max_workers=1)
+        base = dict(auto=cf_bits(yaw.autocorrelate(cfg, ref, rand, max_workers=1)),
+                    cross=cf_bits(yaw.crosscorrelate(cfg, ref, unk, ref_rand=rand, max_workers=1)))
+        h0 = HistData.from_catalog(ref, cfg, max_workers=1)
+        base["hist"] = (bits(h0.data), bits(h0.samples))
+        for entry in ("hist", "auto", "cross"):
+            perms = orders(rng, npatch, ctx.n(8, 24)) if entry == "hist" else [None] * ctx.n(3, 8)
+            for k, perm in enumerate(perms):
+                w = [2, npatch, npatch + 3][k % 3]
+                sch = simpool.Schedule("random", seed=rng.randrange(10 ** 6)) if perm is None else \
+                    simpool.Schedule("random", seed=0, explicit=[list(perm)] * 50)
+                with patched(sch) as mp:
+                    if entry == "hist":
+                        h = HistData.from_catalog(ref, cfg, max_workers=w)
+                        got = (bits(h.data), bits(h.samples))
+                    elif entry == "auto":
+                        got = cf_bits(yaw.autocorrelate(cfg, ref, rand, max_workers=w))
+                    else:
+                        got = cf_bits(yaw.crosscorrelate(cfg, ref, unk, ref_rand=rand, max_workers=w))
+                used = [o for o in mp.schedule.log]
+                ctx.count(key=("generic", rep, entry, tuple(map(tuple, used)), w), nontrivial=any(o != sorted(o) for o in used),
+                          kind="generic-weights/%s/w%d" % (entry, w))
+                if got != base[entry]:
+                    ctx.fail("c05-%s-depends-on-completion-order" % entry,
+                             "%s (generic float weights) with %d workers under completion order %s differs in its bits from the sequential result"
+                             % (entry, w, used[:3]), dict(entry=entry, workers=w, orders=used[:6], npatch=npatch, generic_weights=True),
+                             case=("generic", rep, entry, k))
+        for w in (2, 5):
+            h = HistData.from_catalog(ref, cfg, max_workers=w)
+            ctx.count(key=("generic", rep, "real-hist", w), nontrivial=True, kind="generic-weights/real-pool/w%d" % w)
+            if (bits(h.data), bits(h.samples)) != base["hist"]:
+                ctx.fail("c05-hist-depends-on-completion-order", "HistData.from_catalog (generic float weights) on the real pool with %d workers differs" % w,
+                         dict(workers=w, generic_weights=True), case=("generic", rep, "real-hist", w))
+        for c in (ref, unk, rand):
+            shutil.rmtree(str(c.cache_directory), ignore_errors=True)
 
 
 def run(ctx):
@@ -224,6 +274,7 @@ def run(ctx):
                          dict(workers=w, edges_first=edges, edges_second=edges_b), case=(rep, "real-history", w))
         for c in (ref, unk, rand):
             shutil.rmtree(str(c.cache_directory), ignore_errors=True)
+    run_generic(ctx)
     impl.set_threads(1)
     codes = ctx.shards("Cases_C05", HEADER, terms, shard=40)
     for (cid, meta), c in zip(metas, codes):
